@@ -229,6 +229,31 @@ enum Bind {
     Str(String),
     Bytes(Vec<u8>),
     Val(V),
+    /// a large byte string described by (kind, length, seed) so that replay lines stay short
+    Gen(u8, usize, u64),
+}
+
+/// kind 0: pseudo-random bytes (incompressible); 1: pseudo-random over a 16-symbol alphabet;
+/// 2: repetitive first half + random tail; 3: random head + repetitive tail; 4: all the same byte
+fn gen_bytes(kind: u8, len: usize, seed: u64) -> Vec<u8> {
+    let mut r = Rng::new(seed);
+    let mut out = Vec::with_capacity(len);
+    let mut word = 0u64;
+    for i in 0..len {
+        if i % 8 == 0 {
+            word = r.next();
+        }
+        let rb = (word >> ((i % 8) * 8)) as u8;
+        let rep = b"abcabcabd0123456"[i % 16];
+        out.push(match kind {
+            0 => rb,
+            1 => b"0123456789abcdef"[(rb & 15) as usize],
+            2 => if i < len / 2 { rep } else { rb },
+            3 => if i < len / 2 { rb } else { rep },
+            _ => 0x41,
+        });
+    }
+    out
 }
 impl Bind {
     fn encode(&self) -> String {
@@ -236,6 +261,7 @@ impl Bind {
             Bind::Str(s) => format!("str:{}", if s.is_empty() { "-".into() } else { hex(s.as_bytes()) }),
             Bind::Bytes(b) => format!("bytes:{}", if b.is_empty() { "-".into() } else { hex(b) }),
             Bind::Val(v) => format!("val:{}", v.token_bind()),
+            Bind::Gen(k, n, sd) => format!("gen:{}_{}_{}", k, n, sd),
         }
     }
     fn decode(t: &str) -> Option<Bind> {
@@ -248,6 +274,10 @@ impl Bind {
                 let mut pos = 0;
                 Bind::Val(V::parse(rest.as_bytes(), &mut pos)?)
             }
+            "gen" => {
+                let p: Vec<&str> = rest.split('_').collect();
+                Bind::Gen(p.first()?.parse().ok()?, p.get(1)?.parse().ok()?, p.get(2)?.parse().ok()?)
+            }
             _ => return None,
         })
     }
@@ -256,6 +286,7 @@ impl Bind {
             Bind::Str(s) => Obj::from(s.clone()),
             Bind::Bytes(b) => Obj::Seq(Seq::Bytes(Rc::new(b.clone()))),
             Bind::Val(v) => v.to_obj(it),
+            Bind::Gen(k, n, sd) => Obj::Seq(Seq::Bytes(Rc::new(gen_bytes(*k, *n, *sd)))),
         }
     }
 }
@@ -874,7 +905,39 @@ fn f64_class(s: &str) -> String {
     }
 }
 
+/// the same format string evaluated lexically inside `freeze`: (1) `freeze F"…"` with the values
+/// bound to variables outside, (2) `(freeze \a, b -> F"…")(a, b)`; `exprs` are the interpolated
+/// expressions of `c.src` in order
+fn freeze_variants(c: &Case, exprs: &[String]) -> Vec<Case> {
+    let mut body = String::new();
+    let mut rest: &str = &c.src;
+    let mut names = vec![];
+    for (i, e) in exprs.iter().enumerate() {
+        let pat = format!("{{{}", e);
+        match rest.find(&pat) {
+            Some(pos) => {
+                let name = format!("qf{}", i);
+                body.push_str(&rest[..pos]);
+                body.push('{');
+                body.push_str(&name);
+                rest = &rest[pos + pat.len()..];
+                names.push(name);
+            }
+            None => return vec![],
+        }
+    }
+    body.push_str(rest);
+    let decls: String = names.iter().zip(exprs).map(|(n, e)| format!("{} := {}; ", n, e)).collect();
+    let top = format!("(\\ -> ({}freeze {}))()", decls, body);
+    let lam = format!("(freeze \\{} -> {})({})", names.join(", "), body, exprs.join(", "));
+    vec![
+        case(&format!("{}/freeze-top", c.key), top, vec![], c.render, c.request.clone(), c.nontrivial),
+        case(&format!("{}/freeze-lambda", c.key), lam, vec![], c.render, c.request.clone(), c.nontrivial),
+    ]
+}
+
 struct Gen {
+    extra: Vec<Case>,
     rng: Rng,
     specials: Vec<BigInt>,
     max_bits: u64,
@@ -909,9 +972,11 @@ impl Gen {
         let mut src = format!("F\"{}", pre);
         let mut slots = vec![];
         let mut flagged = 0;
+        let mut exprs = vec![];
         for i in 0..n {
             let w = if self.rng.chance(2, 3) { self.small_int() } else { self.int() };
             let (e, r) = self.int_expr(&w);
+            exprs.push(e.clone());
             let mut flags = String::new();
             let (mut base, mut alc, mut pad, mut len) = ("d", "r", 32, 0u64);
             // the first slot is mostly flagged, later ones are often bare: that is where a leak shows
@@ -945,8 +1010,10 @@ impl Gen {
             slots.push(format!("{},{},{},{},{}:{},{}", base, alc, pad, len, r, w, hx(sep.as_bytes())));
         }
         src.push('"');
-        case(&format!("fmt(multi,{}of{})", flagged, n), src, vec![], Render::Canon,
-             format!("fmtmulti {} {}", hx(pre.as_bytes()), slots.join(";")), true)
+        let c = case(&format!("fmt(multi,{}of{})", flagged, n), src, vec![], Render::Canon,
+                     format!("fmtmulti {} {}", hx(pre.as_bytes()), slots.join(";")), true);
+        self.extra.extend(freeze_variants(&c, &exprs));
+        c
     }
 
     fn gen_show(&mut self) -> Case {
@@ -962,7 +1029,9 @@ impl Gen {
             let len = 1 + self.rng.below(lmax);
             let src = format!("F\"{{{} #{}{}{}{}}}\"", e, al, if zero { "0" } else { "" }, len, base);
             let req = format!("fmt {} {} {} {} {}:{}", base, alc, if zero { 48 } else { 32 }, len, rep, v);
-            return case(&format!("fmt({},{})", base, rep), src, vec![], Render::Canon, req, big);
+            let c = case(&format!("fmt({},{})", base, rep), src, vec![], Render::Canon, req, big);
+            self.extra.extend(freeze_variants(&c, &[e.clone()]));
+            return c;
         }
         if self.rng.chance(1, 10) {
             // a list of integers: elements are shown in repr form (decimal), whatever the flag
@@ -983,7 +1052,11 @@ impl Gen {
                 3 => format!("F\"{{{} #x}}\"", l),
                 _ => format!("F\"{{{}}}\"", l),
             };
-            return case("show(list)", src, vec![], Render::Canon, format!("showlist {}", toks.join(",")), true);
+            let c = case("show(list)", src, vec![], Render::Canon, format!("showlist {}", toks.join(",")), true);
+            if c.src.starts_with('F') {
+                self.extra.extend(freeze_variants(&c, &[l.clone()]));
+            }
+            return c;
         }
         if self.rng.chance(1, 14) {
             // an integer inside a dict: `{"k": v}`, value in repr form
@@ -1012,7 +1085,11 @@ impl Gen {
             "repr" => (format!("repr({})", e), "d", Render::Canon),
             b => (format!("F\"{{{} #{}}}\"", e, b), b, Render::Canon),
         };
-        case(&format!("show({},{})", k, rep), src, vec![], render, format!("show {} {}:{}", base, rep, v), big)
+        let c = case(&format!("show({},{})", k, rep), src, vec![], render, format!("show {} {}:{}", base, rep, v), big);
+        if c.src.starts_with('F') {
+            self.extra.extend(freeze_variants(&c, &[e.clone()]));
+        }
+        c
     }
 
     fn gen_intparse(&mut self) -> Case {
@@ -1494,7 +1571,25 @@ impl Gen {
         }
     }
 
+    /// large inputs: the round trip must return ALL the bytes (length first, then content)
+    fn gzip_big(kind: u8, len: usize, seed: u64) -> Case {
+        case(&format!("decompress(compress)(big,kind{})", kind),
+             "[len(decompress(compress($1))), decompress(compress($1)) == $1, len($1)]".into(),
+             vec![Bind::Gen(kind, len, seed)], Render::Canon, format!("echo ok [{},1,{}]", len, len), true)
+    }
+
     fn gen_gzip(&mut self, rn: &mut Runner) -> Case {
+        if self.rng.chance(1, 6) {
+            let kind = self.rng.below(5) as u8;
+            let len = match self.rng.below(4) {
+                0 => 61430 + self.rng.below(30) as usize,
+                1 => 32768 * (1 + self.rng.below(8) as usize) + self.rng.below(3) as usize - 1,
+                2 => 61441 + self.rng.below(200_000) as usize,
+                _ => 1000 + self.rng.below(400_000) as usize,
+            };
+            let seed = self.rng.next() % 1_000_000;
+            return Gen::gzip_big(kind, len, seed);
+        }
         let big = self.rng.chance(1, 30);
         let bs = if big {
             let n = 1000 + self.rng.below(60000);
@@ -1609,8 +1704,9 @@ fn main() {
     }
 
     let thorough = args.tier == "thorough";
-    let n_cases: u64 = if thorough { 400_000 } else { 16_000 };
+    let n_cases: u64 = if thorough { 400_000 } else { 20_000 };
     let mut g = Gen {
+        extra: vec![],
         rng: Rng::new(args.seed),
         specials: special_ints(),
         max_bits: if thorough { 3000 } else { 700 },
@@ -1655,6 +1751,17 @@ fn main() {
         pending.push(case("json_decode(json_encode(v))==v", "json_decode(json_encode($1)) == $1".into(), vec![Bind::Val(V::IntBig(v.clone()))],
                           Render::Canon, "echo ok 1".into(), true));
     }
+    for (kind, len) in [(0u8, 61440usize), (0, 61441), (0, 65536), (0, 100_000), (0, 200_000), (0, 1 << 20), (1, 300_000), (1, 500_000),
+                        (2, 140_000), (2, 400_000), (3, 140_000), (3, 300_000), (4, 1 << 20)] {
+        pending.push(Gen::gzip_big(kind, len, 7 + len as u64));
+    }
+    {
+        let c = case("show(x,s)", "F\"{n #x}\"".replace("n", "255"), vec![], Render::Canon, "show x s:255".into(), true);
+        pending.extend(freeze_variants(&c, &["255".to_string()]));
+        pending.push(case("show(x,s)/freeze-lambda", "(\\ -> (qg := freeze \\n -> F\"{n #x}\"; qg(255)))()".into(), vec![], Render::Canon,
+                          "show x s:255".into(), true));
+        pending.push(c);
+    }
     pending.push(case("decompress(garbage)", "decompress($1)".into(), vec![Bind::Bytes(vec![1, 2, 3])], Render::Canon, "echo throw".into(), true));
     pending.push(case("decompress(garbage)", "decompress($1)".into(), vec![Bind::Bytes(vec![])], Render::Canon, "echo throw".into(), true));
 
@@ -1677,6 +1784,10 @@ fn main() {
             };
             pending.push(c);
             total += 1;
+            for x in g.extra.drain(..) {
+                pending.push(x);
+                total += 1;
+            }
         }
         if pending.is_empty() {
             break;
